@@ -1,13 +1,14 @@
 (* C08 -- tensors form a dagger compact-closed category of matrices.
-   Property theorems only; proofs are in Tensor/NumpyLemmas.v and
-   Tensor/TensorLemmas.v.  `entry t i j` is the matrix entry at multi-indices
+   Property theorems only; proofs are in Tensor/NumpyLemmas.v,
+   Tensor/TensorLemmas.v and Tensor/TensorSnakes.v.  `entry t i j` is the matrix entry at multi-indices
    (i in dom, j in cod); `mat t r c` is the entry of the flattened matrix
    t.array.reshape(prod(dom), prod(cod)).  All statements hold for every
    dimension list (empty, Dim(1)-normalised, repeated, unequal) and every array
    of Gaussian integers of matching size. *)
 From Coq Require Import List ZArith Bool Arith.
 Import ListNotations.
-Require Import DV.Common.Base DV.Tensor.NumpyModel DV.Tensor.Tensor DV.Tensor.TensorLemmas.
+Require Import DV.Common.Base DV.Tensor.NumpyModel DV.Tensor.Tensor DV.Tensor.TensorLemmas
+  DV.Tensor.TensorSnakes.
 Open Scope nat_scope.
 
 (* composition is the matrix product (multi-index and flattened form) *)
@@ -73,9 +74,8 @@ Theorem cups_refuses : forall l r, rev l <> r -> tcups l r = Err AxiomError.
 Proof. exact cups_refuses_b. Qed.
 Print Assumptions cups_refuses.
 
-(* Both snake equations.  PARTIAL: proved for a single wire of every dimension;
-   the statements for arbitrary multi-wire types are snake_left_stmt and
-   snake_right_stmt in Tensor/TensorLemmas.v (kept visible, not asserted). *)
+(* Both snake equations for a single wire of every dimension (instances of
+   snake_left / snake_right below, kept because they were the first proved). *)
 Theorem snake_left_partial : forall d,
   exists t, snake_left_prog [d] = Ok t /\ tid [d] = Ok t.
 Proof. exact TensorLemmas.snake_left_partial. Qed.
@@ -85,3 +85,22 @@ Theorem snake_right_partial : forall d,
   exists t, snake_right_prog [d] = Ok t /\ tid [d] = Ok t.
 Proof. exact TensorLemmas.snake_right_partial. Qed.
 Print Assumptions snake_right_partial.
+
+(* cups and caps of every adjoint pair of types (multi-wire, any dimensions,
+   the empty type included): nested Kronecker deltas, entry (a ++ b) = [a = rev b] *)
+Theorem cups_caps_multi_wire : cups_caps_multi_wire_stmt.
+Proof. exact cups_caps_multi_wire_b. Qed.
+Print Assumptions cups_caps_multi_wire.
+
+(* Both snake equations for EVERY type x (any number of wires, any dimensions,
+   the empty type included; no hypothesis on x):
+     (id(x) (x) caps(x.r, x)) >> (cups(x, x.r) (x) id(x)) = id(x)
+     (caps(x, x.r) (x) id(x)) >> (id(x) (x) cups(x.r, x)) = id(x)
+   as equal `tensor` values, every intermediate operation succeeding. *)
+Theorem snake_left : snake_left_stmt.
+Proof. exact snake_left_full. Qed.
+Print Assumptions snake_left.
+
+Theorem snake_right : snake_right_stmt.
+Proof. exact snake_right_full. Qed.
+Print Assumptions snake_right.
